@@ -22,17 +22,40 @@ func checkInline(r *Result, prop string) []Violation {
 		return nil
 	}
 	subs := map[inlineKey]bool{}
+	ambig := map[inlineKey]bool{}
 	walk(r, func(m *Model, w *Window) {
 		if !w.Complete {
 			return
 		}
 		single := len(w.Ops) == 1
+		// inline subscribe / unsubscribe calls of one window run as concurrent API calls: when two of them address
+		// the same (filter, id) their order is the scheduler's, and the outcome stays undetermined until a later
+		// call on that key that runs alone
+		touched := map[inlineKey]int{}
+		for _, oi := range w.Ops {
+			if op := &r.Plan.Ops[oi]; op.Kind == "inline_sub" || op.Kind == "inline_unsub" {
+				touched[inlineKey{op.Str, op.N}]++
+			}
+		}
+		for k, n := range touched {
+			if n > 1 {
+				ambig[k] = true
+			} else {
+				delete(ambig, k) // a lone call on the key decides its state whatever else runs beside it
+			}
+		}
 		for _, oi := range w.Ops {
 			op := &r.Plan.Ops[oi]
 			switch op.Kind {
 			case "publish", "inline_pub":
 				if !single || op.Pkt == nil || op.Pkt.Payload == "" {
 					continue
+				}
+				undetermined := map[int]bool{}
+				for k := range ambig {
+					if refmatch.Match(k.filter, op.Pkt.Topic) {
+						undetermined[k.id] = true
+					}
 				}
 				_, _, ok := m.publisherOK(oi)
 				want := payloadIDOf(op.Pkt.Payload)
@@ -59,6 +82,9 @@ func checkInline(r *Result, prop string) []Violation {
 					ids[id] = true
 				}
 				for id := range ids {
+					if undetermined[id] {
+						continue
+					}
 					if exp[id] > 0 && got[id] == 0 {
 						var fs []string
 						for k := range subs {
